@@ -7,8 +7,8 @@ from veclib import *
 from veclib import _zero, _abs
 
 PID = "C15"
-IMPORTS = "From OV Require Import Model.Vector Model.VecOps."
-MODEL_VO = ["Model/VecOps.vo"]
+IMPORTS = "From OV Require Import Model.Vector Model.VecOps Proofs.VectorCx2Out."
+MODEL_VO = ["Model/VecOps.vo", "Proofs/VectorCx2Out.vo"]
 EXHAUSTIVE = False
 RULE = ("vec.* cases: (a) for every length 0..8 (rationals) one history containing EVERY index argument 0..n+1 of sum_slice/"
         "product_slice (all (start,end) pairs), swap, insert, get/set, resize, find (exhaustive in the indices, out-of-range included); "
@@ -18,6 +18,10 @@ RULE = ("vec.* cases: (a) for every length 0..8 (rationals) one history containi
         "(push/push_front/insert/pop/swap/resize/assign/clear/sort/find and the rest, ~1/6 deliberately out of range); "
         "(d) the adversarial family of the recorded finding f64-square-range: f64 vectors with entries whose square leaves the normal range, "
         "spacings whose b-a overflows (norms, norm laws, linspace, powspace; lengths 1..8); "
+        "(e) the norm laws on complex and rational vectors (package cnorm): for every length 0..64 one Complex<f64> case (dot, norm_1 and "
+        "norm_inf of u, v, u+v, c*u; kind vec.cnormlaws) and one Rat case (dot and norm_1 of the same four vectors, exact; kind vec.n1laws), "
+        "plus structured complex vectors (maximum modulus at the first / last / middle entry, ties of equal modulus, zero vectors, "
+        "unimodular and zero scalars) and a mismatched-size case of each; "
         "distinct = distinct executor line; non-trivial = non-empty vector or an operation that must panic")
 TRUSTED = ["Coq 8.16.1 kernel + vm_compute (primitive floats: bit-exact IEEE binary64)", "Flocq 4 (IEEE754.PrimFloat, BinarySingleNaN) and Coq's FloatAxioms for the two *_exact_float theorems", "Rust executor /verif/harness (kinds vec.*; Rat = i128 rationals)",
            "python driver: generators, plain-list reference model, mpmath norm reference, stream comparators",
@@ -31,8 +35,14 @@ UNPROVED = ["norm_p over R: non-negativity, homogeneity and norm_p = norm_1 / no
             "Minkowski (triangle inequality) and inf <= p <= 1 for general p are searched only",
             "round two: dot_backward_error, sum_slice_backward_error, norm_1_relative_error (gamma_n), norm_2_relative_error (gamma_{n+1}) in the standard model, dot/sum/norm_1 also at binary64 via Flocq; the norm LAWS 'up to rounding' over f64 remain searched (1e-12 slack on data of moderate magnitude; proved over R only) and FAIL for entries whose square overflows/underflows (recorded finding f64-square-range)",
             "powspace / norm_p over f64 depend on libm pow: tied by tolerance (table of the calls) and searched; their theorems are over R with pow as the real power function",
-            "the norm laws are proved (Props/C15.v, over list R) and searched (normlaws cases) for REAL vectors; for Vector<Complex<f64>>::norm_inf (vec_cmplx.rs) and the generic "
-            "norm_1 on complex / rational vectors (through Signed::abs = (|z|, 0)) the VALUES are tied bit for bit and compared with an exact reference, but no law is proved or searched",
+            "complex / rational vectors (package cnorm, coq/Proofs/VectorCx2.v, VectorCx2Q.v; pinned block coq/Props/pending/C15_cnorm.v.txt): for Vector<Complex<f64>>::norm_inf "
+            "(vec_cmplx.rs) and the generic norm_1 (through Signed::abs = (|z|, 0)) the laws (maximum of the moduli, non-negativity, definiteness, homogeneity, triangle inequality, "
+            "norm_inf <= norm_1 <= n norm_inf, exact panic condition) and Cauchy-Schwarz for the bilinear dot are proved over C = R x R and (norm_1) over Qc, and searched on "
+            "Complex<f64> (1e-12 slack, entries of moderate magnitude) and Rat (exactly); over IEEE binary64 (Flocq) both complex norms are exact on Gaussian integers of integer modulus "
+            "(cnorm_inf_exact_float, cnorm1_exact_float), and in the standard model of floating-point arithmetic with a rounded square root fl|z| = |z|(1+th), |th| <= gam 3, "
+            "fl(norm_inf) = max|z_i|(1+th), |th| <= gam 3, re fl(norm_1) = Sum|z_k|(1+th_k), |th_k| <= gam(n+3) (coq/Proofs/VectorCx2R.v); what stays unproved is the standard model "
+            "itself for Complex<f64> (no Flocq bridge for the complex norms on general data), and the laws FAIL on the real code when re^2 + im^2 leaves the f64 range "
+            "(norm_inf [1e200+0i] = inf, norm_inf [1e-200+1e-200i] = 0: same class as the recorded finding f64-square-range; not in the default search for complex data)",
             "Vector::random: length and range [0,1) observed only"]
 
 MANIFEST = dict(
@@ -43,7 +53,11 @@ MANIFEST = dict(
           "sum_slice_spec / product_slice_spec / sum_spec (value and exact guard conditions), dot bilinear/symmetric over a ring, linspace_ends "
           "over a field and strict monotonicity over R, powspace_spec over R (ends, monotone), and over R: non-negativity, homogeneity, triangle inequality of "
           "norm_1/norm_inf/norm_2 (Cauchy-Schwarz) and norm_inf <= norm_2 <= norm_1; over IEEE binary64 (Flocq): dot_exact_float and "
-          "sum_slice_exact_float, elementwise_exact_float, norm_1_exact_float (integer-valued f64 data below 2^53: the float instance returns exactly the integer value of the definition). Tie: the same definitions run by vm_compute "
+          "sum_slice_exact_float, elementwise_exact_float, norm_1_exact_float (integer-valued f64 data below 2^53: the float instance returns exactly the integer value of the definition). "
+          "Complex and rational vectors (package cnorm): Vector<Complex<f64>>::norm_inf is the regenerated source function, panics exactly on the empty vector, and over C = R x R is the maximum of the moduli, "
+          "non-negative, definite, homogeneous, sub-additive; the generic norm_1 at the complex instance is (sum of the moduli, 0) with the same laws and norm_inf <= norm_1 <= n norm_inf, at Qc the sum of the "
+          "absolute values with the same laws; Cauchy-Schwarz for the (bilinear, non-conjugating) complex dot; exactness of both complex norms on Gaussian integers of integer modulus over binary64; "
+          "relative error gam 3 / gam (n+3) of the complex norms in the standard model with a rounded square root. Tie: the same definitions run by vm_compute "
           "against the implementation (Rat vs Qc exactly; f64/Complex bit-compared, libm-dependent norm_p/powspace by tolerance) "
           "on every length 0..64, every index range of the slice reductions for lengths <= 8 and random histories; a plain python "
           "list model and mpmath norms search for failing inputs."),
@@ -155,6 +169,18 @@ def cx_case(v, family):
     term = "@vec_cx_out SAF flat_f %s" % coq_v('cplx', v)
     return Case('cplx', "vec.cx %s" % tok_vec('cplx', v), term, meta={"kind": "cx", "v": v}, family=family,
                 nontrivial=len(v) > 0, tol=TOL, check_class=True)
+
+def cnormlaws_case(u, v, c, family):
+    """Complex<f64>: dot(u,v), then norm_1 (a complex number) and norm_inf of u, v, u+v, u*c"""
+    term = "@vec_cnormlaws_out SAF flat_f %s %s %s" % (coq_v('cplx', u), coq_v('cplx', v), coq_s('cplx', c))
+    return Case('cplx', "vec.cnormlaws %s %s %s" % (tok_vec('cplx', u), tok_vec('cplx', v), tok_scalar('cplx', c)), term,
+                meta={"kind": "cnormlaws", "u": u, "v": v, "c": c}, family=family, nontrivial=len(u) > 0, tol=TOL, check_class=True)
+
+def n1laws_case(elt, u, v, c, family):
+    """generic code only (Rat in the sweep): dot(u,v), then norm_1 of u, v, u+v, u*c"""
+    term = "@vec_n1laws_out %s %s %s %s %s" % (ARITH[elt], FLAT[elt], coq_v(elt, u), coq_v(elt, v), coq_s(elt, c))
+    return Case(elt, "vec.n1laws %s %s %s" % (tok_vec(elt, u), tok_vec(elt, v), tok_scalar(elt, c)), term,
+                meta={"kind": "n1laws", "u": u, "v": v, "c": c}, family=family, nontrivial=len(u) > 0, tol=TOL, check_class=True)
 
 def ctor_case(elt, n, x, w, family):
     term = "@vec_ctor_out %s %s %d %s %s" % (ARITH[elt], FLAT[elt], n, coq_s(elt, x), coq_v(elt, w))
@@ -289,6 +315,34 @@ def generate(rng, tier):
         if n % 8 == 0: cases.append(random_case(n))
     # norm laws on mismatched sizes (the + guard), norm_inf of the empty vector is in the sweep above (n = 0)
     cases.append(normlaws_case([1.0, 2.0], [1.0], 2.0, 2.0, "norm-laws"))
+    # (e) norm laws on complex and rational vectors (package cnorm)
+    g = rng.fork("cnorm")
+    for n in range(0, 65):
+        for _ in range(3 if thorough else 1):
+            cases.append(cnormlaws_case(rvec(g, 'cplx', n), rvec(g, 'cplx', n), val(g, 'cplx'), "norm-laws-cplx"))
+            cases.append(n1laws_case('rat', rvec(g, 'rat', n), rvec(g, 'rat', n), val(g, 'rat'), "norm-laws-rat"))
+    def cx_big(mod):                       # a complex number of modulus about `mod`, in a random direction / on an axis
+        k = g.below(6)
+        if k == 0: return complex(mod, 0.0)
+        if k == 1: return complex(0.0, -mod)
+        if k == 2: return complex(-0.6 * mod, 0.8 * mod)
+        t = 6.283185307179586 * g.unit()
+        return complex(mod * math.cos(t), mod * math.sin(t))
+    for n in range(1, 9):
+        for pos in sorted(set([0, n - 1, n // 2])):
+            for _ in range(2 if thorough else 1):
+                u = [cx_big(0.25 + g.unit()) for _ in range(n)]; u[pos] = cx_big(4.0 + g.unit())
+                v = [cx_big(0.25 + g.unit()) for _ in range(n)]; v[(pos + 1) % n] = cx_big(3.0 + g.unit())
+                cases.append(cnormlaws_case(u, v, g.choice([complex(0, 1), complex(0, 0), complex(-1, 0), complex(0.6, -0.8), val(g, 'cplx')]),
+                                            "norm-laws-cplx-structured"))
+        # ties: equal moduli reached with different components (5 = |3+4i| = |-5| = |4-3i|), and the zero vector
+        tie = [complex(3, 4), complex(-5, 0), complex(4, -3), complex(0, 5)]
+        cases.append(cnormlaws_case([tie[(i + n) % 4] for i in range(n)], [tie[(i * 3 + 1) % 4] for i in range(n)], complex(0, -2), "norm-laws-cplx-structured"))
+        cases.append(cnormlaws_case([0j] * n, rvec(g, 'cplx', n), val(g, 'cplx'), "norm-laws-cplx-structured"))
+        cases.append(n1laws_case('rat', [Fraction(0)] * n, rvec(g, 'rat', n), nz(g, 'rat'), "norm-laws-rat"))
+        cases.append(n1laws_case('rat', rvec(g, 'rat', n), rvec(g, 'rat', n), Fraction(0), "norm-laws-rat"))
+    cases.append(cnormlaws_case([1 + 2j, 2j], [1j], 2 + 0j, "norm-laws-cplx"))
+    cases.append(n1laws_case('rat', [Fraction(1), Fraction(2)], [Fraction(1)], Fraction(2), "norm-laws-rat"))
     # (d) the recorded finding `f64-square-range` (KNOWN_FINDINGS.txt): entries whose square leaves the normal f64 range
     #     (|x| in 1e-200..1e-155 or 1e155..1e300), spacings whose b - a overflows.  Runs on every check; the float model
     #     reproduces the implementation's inf / 0 / NaN bit for bit, the oracle reports them, finding_key classifies them.
@@ -361,6 +415,8 @@ def case_from_json(j):
     if kind == "powspace": return powspace_case(F(m["a"]), F(m["b"]), int(m["n"]), F(m["p"]), "corpus")
     if kind == "scale_l": return scale_l_case(F(m["s"]), [F(x) for x in m["v"]], "corpus")
     if kind == "cx": return cx_case([_conv('cplx', x) for x in m["v"]], "corpus")
+    if kind == "cnormlaws": return cnormlaws_case([_conv('cplx', x) for x in m["u"]], [_conv('cplx', x) for x in m["v"]], _conv('cplx', m["c"]), "corpus")
+    if kind == "n1laws": return n1laws_case(elt, [_conv(elt, x) for x in m["u"]], [_conv(elt, x) for x in m["v"]], _conv(elt, m["c"]), "corpus")
     if kind == "ctor": return ctor_case(elt, int(m["n"]), _conv(elt, m["x"]), [_conv(elt, x) for x in m["w"]], "corpus")
     if kind == "sort_ord": return sort_ord_case([int(x) for x in m["xs"]], "corpus")
     if kind == "random": return random_case(int(m["n"]))
@@ -417,6 +473,94 @@ def check_norm_values(vec, got, p, w):
     if not close(gp, npp, scale): return "[norm_p#%d] norm_p(%r) of %r is %r, definition gives %r" % (w, p, vec, gp, float(npp))
     return None
 
+# ------------------------------------------------------------------ norm laws on complex / rational vectors (package cnorm)
+def cmul_ieee(x, c):
+    """Complex<f64> product as complex/mod.rs computes it: (a c - b d, a d + b c), every operation rounded"""
+    return complex(x.real * c.real - x.imag * c.imag, x.real * c.imag + x.imag * c.real)
+
+def cnormlaws_vectors(m):
+    u, v, c = m["u"], m["v"], m["c"]
+    return [u, v, [complex(a.real + b.real, a.imag + b.imag) for a, b in zip(u, v)], [cmul_ieee(a, c) for a in u]]
+
+def oracle_cnormlaws(m, items):
+    """Complex<f64>.  (1) every returned value is the definition's value of the vector it was computed from (mpmath, 50
+    digits): norm_1 = (sum |z_i|, 0) with imaginary part exactly 0, norm_inf = max |z_i|, dot = the bilinear sum;
+    (2) the laws hold BETWEEN THE RETURNED VALUES: non-negativity, definiteness, homogeneity, triangle inequality,
+    norm_inf <= norm_1 <= n norm_inf, Cauchy-Schwarz |dot| <= sqrt(sum|u_i|^2) sqrt(sum|v_i|^2).  Slack 1e-12 (relative),
+    as for the real vectors; the generated entries have moderate magnitude (no overflow / underflow of |z|^2)."""
+    u, v, c = m["u"], m["v"], m["c"]
+    if len(u) != len(v):
+        return None if items and items[-1][0] == 'P' else "u + v with mismatched sizes did not panic (complex)"
+    if not u:
+        ok = len(items) == 5 and all(it[0] == 'f' and bits_f64(it[1]) == 0.0 for it in items[:4]) and items[4][0] == 'P'
+        return None if ok else "[cnorm_inf] empty complex vectors: expected dot = 0, norm_1 = 0, then the index panic of norm_inf; got %r" % (items[:6],)
+    if len(items) != 14 or any(it[0] != 'f' for it in items): return "malformed complex norm-laws answer %r" % (items[:8],)
+    mp = _mp()
+    vecs = cnormlaws_vectors(m)
+    if not all(math.isfinite(z.real) and math.isfinite(z.imag) for w in vecs for z in w): return None
+    dot = complex(fl(items, 0), fl(items, 1))
+    N1 = [fl(items, 2 + 3 * w) for w in range(4)]; N1im = [fl(items, 3 + 3 * w) for w in range(4)]; NI = [fl(items, 4 + 3 * w) for w in range(4)]
+    names = ["u", "v", "u+v", "u*c"]
+    mod = lambda z: mp.sqrt(mp.mpf(z.real) ** 2 + mp.mpf(z.imag) ** 2)
+    # (1) values
+    for w, vec in enumerate(vecs):
+        ms = [mod(z) for z in vec]
+        s1 = mp.fsum(ms); mx = max(ms)
+        if N1im[w] != 0.0: return "[cnorm_1#%d] norm_1 of the complex vector %s = %r has imaginary part %r, not 0" % (w, names[w], vec, N1im[w])
+        if not close(N1[w], s1): return "[cnorm_1#%d] norm_1 of %s = %r is %r, sum of the moduli is %r" % (w, names[w], vec, N1[w], float(s1))
+        if not close(NI[w], mx): return "[cnorm_inf#%d] norm_inf of %s = %r is %r, largest modulus is %r" % (w, names[w], vec, NI[w], float(mx))
+    dre = mp.fsum([mp.mpf(a.real) * mp.mpf(b.real) - mp.mpf(a.imag) * mp.mpf(b.imag) for a, b in zip(u, v)])
+    dim = mp.fsum([mp.mpf(a.real) * mp.mpf(b.imag) + mp.mpf(a.imag) * mp.mpf(b.real) for a, b in zip(u, v)])
+    dscale = float(mp.fsum([mod(a) * mod(b) for a, b in zip(u, v)]))
+    if not (close(dot.real, dre, dscale) and close(dot.imag, dim, dscale)):
+        return "[cdot] dot of %r and %r is %r, the bilinear sum is %r" % (u, v, dot, complex(float(dre), float(dim)))
+    # (2) laws between the returned values
+    sl = 1e-12
+    cabs = float(mod(c))
+    for nm, N in (("norm_1", N1), ("norm_inf", NI)):
+        nu, nv, ns, nc = N
+        if min(N) < 0 or any(x != x for x in N): return "[claw] complex %s is negative or NaN on %r / %r" % (nm, u, v)
+        if ns > (nu + nv) * (1 + sl) + 1e-300: return "[claw] triangle inequality fails for complex %s: |u+v| = %r > |u| + |v| = %r (u = %r, v = %r)" % (nm, ns, nu + nv, u, v)
+        if abs(nc - cabs * nu) > sl * max(nc, cabs * nu) + 1e-300: return "[claw] homogeneity fails for complex %s: |u c| = %r, |c| |u| = %r (c = %r, u = %r)" % (nm, nc, cabs * nu, c, u)
+    for w, vec in enumerate(vecs):
+        allzero = all(z == 0 for z in vec)
+        if (N1[w] == 0.0) != allzero or (NI[w] == 0.0) != allzero:
+            return "[claw] definiteness fails on %s = %r: norm_1 = %r, norm_inf = %r" % (names[w], vec, N1[w], NI[w])
+        if not (NI[w] <= N1[w] * (1 + sl) and N1[w] <= len(vec) * NI[w] * (1 + sl)):
+            return "[claw] norm_inf <= norm_1 <= n norm_inf fails on %s = %r: %r, %r" % (names[w], vec, NI[w], N1[w])
+    s2u = mp.sqrt(mp.fsum([mod(z) ** 2 for z in u])); s2v = mp.sqrt(mp.fsum([mod(z) ** 2 for z in v]))
+    if abs(dot) > float(s2u * s2v) * (1 + sl) + 1e-300:
+        return "[claw] Cauchy-Schwarz fails: |dot(u,v)| = %r > %r (u = %r, v = %r)" % (abs(dot), float(s2u * s2v), u, v)
+    return None
+
+def oracle_n1laws_rat(m, items):
+    """Rat, exact: values against Fraction arithmetic, then the laws between the returned values"""
+    u, v, c = m["u"], m["v"], m["c"]
+    if len(u) != len(v):
+        return None if items and items[-1][0] == 'P' else "u + v with mismatched sizes did not panic (rational)"
+    if len(items) != 5 or any(it[0] != 'q' for it in items): return "malformed rational norm-laws answer %r" % (items[:6],)
+    got = [Fraction(it[1], it[2]) for it in items]
+    dot, N = got[0], got[1:]
+    vecs = [u, v, [a + b for a, b in zip(u, v)], [a * c for a in u]]
+    names = ["u", "v", "u+v", "u*c"]
+    for w, vec in enumerate(vecs):
+        ref = sum((abs(x) for x in vec), Fraction(0))
+        if N[w] != ref: return "[qnorm_1#%d] norm_1 of the rational vector %s = %r is %s, sum of the absolute values is %s" % (w, names[w], vec, N[w], ref)
+    ref = sum((a * b for a, b in zip(u, v)), Fraction(0))
+    if dot != ref: return "[qdot] dot of %r and %r is %s, not %s" % (u, v, dot, ref)
+    nu, nv, ns, nc = N
+    if min(N) < 0: return "[qlaw] rational norm_1 is negative on %r / %r" % (u, v)
+    if ns > nu + nv: return "[qlaw] triangle inequality fails for rational norm_1: %s > %s + %s (u = %r, v = %r)" % (ns, nu, nv, u, v)
+    if nc != abs(c) * nu: return "[qlaw] homogeneity fails for rational norm_1: |u c| = %s, |c| |u| = %s (c = %s, u = %r)" % (nc, abs(c) * nu, c, u)
+    for w, vec in enumerate(vecs):
+        if (N[w] == 0) != all(x == 0 for x in vec): return "[qlaw] definiteness fails on %s = %r: norm_1 = %s" % (names[w], vec, N[w])
+        if vec:
+            mx = max(abs(x) for x in vec)
+            if not (mx <= N[w] <= len(vec) * mx): return "[qlaw] max <= norm_1 <= n max fails on %s = %r: %s, %s" % (names[w], vec, mx, N[w])
+    if dot * dot > sum((x * x for x in u), Fraction(0)) * sum((x * x for x in v), Fraction(0)):
+        return "[qlaw] Cauchy-Schwarz fails on %r, %r: dot = %s" % (u, v, dot)
+    return None
+
 # ------------------------------------------------------------------ the recorded finding (KNOWN_FINDINGS.txt, open:)
 F64_MIN_NORMAL = 2.2250738585072014e-308
 def square_leaves_normal_range(x):
@@ -433,8 +577,22 @@ def finding_key(case, desc, items):
     INPUT of that operation has a component whose square (for the spacings: the difference b - a) is outside the
     normal f64 range.  Decided from the input, never from the failure; everything else stays a VIOLATION."""
     m = case.meta; kind = m.get("kind")
-    if case.elt != 'f64' or not isinstance(desc, str): return None
     import re as _re
+    if kind == "cnormlaws" and isinstance(desc, str):
+        # package cnorm: the complex twin of the same cause (Complex::abs = sqrt(re^2 + im^2), unscaled; recorded for C01 as
+        # cplx-sqmod-range).  The default generators do NOT draw such entries and KNOWN_FINDINGS.txt has no C15 line with this key:
+        # until the coordinator adds one, a hit is reported as a VIOLATION like any other.
+        t = _re.match(r"\[(cnorm_1|cnorm_inf)#(\d)\]", desc)
+        if t:
+            vec = cnormlaws_vectors(m)[int(t.group(2))]
+            def sq_out(z):
+                if z == 0 or not (math.isfinite(z.real) and math.isfinite(z.imag)): return False
+                try: y = z.real * z.real + z.imag * z.imag
+                except OverflowError: return True
+                return (not math.isfinite(y)) or y < F64_MIN_NORMAL or square_leaves_normal_range(z.real) or square_leaves_normal_range(z.imag)
+            return "cplx-sqmod-range" if any(sq_out(z) for z in vec) else None
+        return None
+    if case.elt != 'f64' or not isinstance(desc, str): return None
     t = _re.match(r"\[(norm_2|norm_p)#(\d)\]", desc)
     if t and kind in ("norms", "normlaws"):
         vec = m["v"] if kind == "norms" else normlaws_vectors(m)[int(t.group(2))]
@@ -518,6 +676,8 @@ def oracle(case, items):
         exp += [('f', f64_bits(max(_abs('cplx', z).real for z in v)))] if v else [('P', 'index')]
         d = streams_match(exp, items, 1e-12)
         return ("complex vector conj/real/abs/norm_inf: " + d) if d else None
+    if kind == "cnormlaws": return oracle_cnormlaws(m, items)
+    if kind == "n1laws" and elt == 'rat': return oracle_n1laws_rat(m, items)
     if kind == "ctor":
         n, x, w = m["n"], m["x"], m["w"]
         one = Fraction(1) if elt == 'rat' else (1.0 if elt == 'f64' else 1 + 0j)
